@@ -26,6 +26,8 @@ type HistConfig struct {
 	PConverge      float64
 	PGlobals       float64
 	PFailAfterEdit float64 // motif: edit, then a failing All run
+	PRetag         float64 // in-place change of a declaration's tags (never combined with mid-run edits)
+	PUniform       float64 // every run uses the same generators, scripts and globals (enables the final-state oracle T5)
 	PReal          float64 // a world for the real devpkg generators
 	PMute          float64 // a generator that now renders nothing for one package (with or without ErrIgnore)
 	PDepOutside    float64 // without All: select a package whose dependencies are not selected
@@ -53,6 +55,8 @@ type histWorld struct {
 	gens  []proto.GenScript
 	base  string
 	edits int
+	// retagged: tags as they will be after the retag ops drawn so far
+	retagged map[*Decl][]Tag
 }
 
 func (w *histWorld) pkgFile(pi int, name string) string {
@@ -201,6 +205,13 @@ func DrawHistory(r *Rng, cfg HistConfig) (*Scenario, *histWorld) {
 	}
 	w := &histWorld{m: m, names: names, gens: gens, base: base}
 	sc := &Scenario{Kind: "history", Module: m, Base: base}
+	if cfg.PRetag > 0 {
+		cfg.PMidEdit = 0 // (mid-run edits carry file contents rendered from the initial spec)
+	}
+	if r.P(cfg.PUniform) {
+		sc.UniformGens = true
+		cfg.PSubsetGens, cfg.PMute, cfg.PGlobals, cfg.PStale = 0, 0, 0, 0
+	}
 	var ops []Op
 	n := r.Range(cfg.MinOps, cfg.MaxOps)
 	planted := map[string]bool{}
@@ -215,13 +226,18 @@ func DrawHistory(r *Rng, cfg HistConfig) (*Scenario, *histWorld) {
 			continue
 		}
 		switch {
+		case r.P(cfg.PRetag):
+			// a declaration's tags are edited in place: a type enabled so far is disabled (or the other way
+			// round); the next run - fresh process or not - must follow the new tags
+			if op, ok := w.drawRetag(r); ok {
+				ops = append(ops, op)
+			}
 		case r.P(cfg.PFailAfterEdit) && faulty < 2:
 			// motif: edit a package, then an All run in which a generator fails (first callback of a
 			// scripted generator): the failed run must not mark the edited package as done
 			pi := r.Intn(len(m.Pkgs))
 			w.edits++
-			f := m.Pkgs[pi].Files[0]
-			ops = append(ops, Op{Kind: "edit", Path: w.pkgFile(pi, f.Name), Content: m.FileSource(pi, f, true) + fmt.Sprintf("\n// edit %d before a failing run\n", w.edits)})
+			ops = append(ops, Op{Kind: "touch", K: pi, Path: m.Pkgs[pi].Files[0].Name, Note: "before a failing run"})
 			run := w.drawRun(r, cfg)
 			run.Args.All, run.Args.Force = true, false
 			run.Args.Entrypoint = []string{"./..."}
@@ -239,8 +255,7 @@ func DrawHistory(r *Rng, cfg HistConfig) (*Scenario, *histWorld) {
 			switch r.Intn(4) {
 			case 0:
 				fi := r.Intn(len(m.Pkgs[pi].Files))
-				f := m.Pkgs[pi].Files[fi]
-				ops = append(ops, Op{Kind: "edit", Path: w.pkgFile(pi, f.Name), Content: m.FileSource(pi, f, fi == 0) + fmt.Sprintf("\n// edit %d\n", w.edits)})
+				ops = append(ops, Op{Kind: "touch", K: pi, Path: m.Pkgs[pi].Files[fi].Name})
 			case 1:
 				p := w.pkgFile(pi, fmt.Sprintf("extra_%d.go", w.edits))
 				planted[p] = true
@@ -313,6 +328,60 @@ func DrawHistory(r *Rng, cfg HistConfig) (*Scenario, *histWorld) {
 	return sc, w
 }
 
+// drawRetag flips the enabling tag of one tagged type declaration, keeping the number of tag lines.
+func (w *histWorld) drawRetag(r *Rng) (Op, bool) {
+	m := w.m
+	if w.retagged == nil {
+		w.retagged = map[*Decl][]Tag{}
+	}
+	type cand struct {
+		pi int
+		d  *Decl
+	}
+	var cands []cand
+	for pi, p := range m.Pkgs {
+		var visit func(ds []*Decl)
+		visit = func(ds []*Decl) {
+			for _, d := range ds {
+				switch d.Kind {
+				case "grouped":
+					visit(d.Group)
+				case "struct", "scalar", "mapt", "slice", "functype", "iface", "alias", "generic":
+					if len(w.tagsOf(d)) > 0 {
+						cands = append(cands, cand{pi, d})
+					}
+				}
+			}
+		}
+		for _, f := range p.Files {
+			visit(f.Decls)
+		}
+	}
+	if len(cands) == 0 {
+		return Op{}, false
+	}
+	c := Pick(r, cands)
+	tags := append([]Tag{}, w.tagsOf(c.d)...)
+	k := r.Intn(len(tags))
+	t := tags[k]
+	if t.Sep == "=" && t.Val == "false" {
+		t.Sep, t.Val = "", ""
+	} else {
+		t.Sep, t.Val = "=", "false"
+	}
+	tags[k] = t
+	// remember the edit for later draws; the scenario's module keeps the INITIAL tags
+	w.retagged[c.d] = tags
+	return Op{Kind: "retag", K: c.pi, Path: c.d.Name, Tags: tags}, true
+}
+
+func (w *histWorld) tagsOf(d *Decl) []Tag {
+	if t, ok := w.retagged[d]; ok {
+		return t
+	}
+	return d.Tags
+}
+
 func opKinds(ops []Op) string {
 	s := ""
 	for _, o := range ops {
@@ -373,7 +442,7 @@ func runHistory(c *CheckCtx, i int, r *Rng, cfg HistConfig) error {
 // SimC06: dispatch of GenerateType/GenerateAliasType/Defer over the tag lattice
 // and declaration kinds, under adversarial map orders.
 func SimC06(c *CheckCtx, i int, r *Rng) error {
-	return runHistory(c, i, r, HistConfig{MinOps: 1, MaxOps: 3, PAll: 0.6, PForce: 0.5, PGlobals: 0.5, PSubsetGens: 0.2, PEdit: 0.1})
+	return runHistory(c, i, r, HistConfig{MinOps: 1, MaxOps: 4, PAll: 0.6, PForce: 0.5, PGlobals: 0.5, PSubsetGens: 0.2, PEdit: 0.1, PRetag: 0.3})
 }
 
 // SimC07: gengo only touches its own output files.
@@ -383,11 +452,11 @@ func SimC07(c *CheckCtx, i int, r *Rng) error {
 		return SimC08(c, i, r)
 	}
 	return runHistory(c, i, r, HistConfig{MinOps: 3, MaxOps: 7, PAll: 0.6, PForce: 0.3, PGlobals: 0.2, PSubsetGens: 0.5, PEdit: 0.15, PStale: 0.25,
-		PSumOps: 0.05, PBreak: 0.08, PGenFault: 0.12, PIOFault: 0.12, PKill: 0.1, PConverge: 0.2, PMute: 0.35, PDepOutside: 0.5, PReal: 0.1})
+		PSumOps: 0.05, PBreak: 0.08, PGenFault: 0.12, PIOFault: 0.12, PKill: 0.1, PConverge: 0.2, PMute: 0.35, PDepOutside: 0.5, PReal: 0.1, PUniform: 0.3})
 }
 
 // SimC08: the gengo.sum cache against the reference model.
 func SimC08(c *CheckCtx, i int, r *Rng) error {
 	return runHistory(c, i, r, HistConfig{MinOps: 4, MaxOps: 9, PAll: 0.85, PForce: 0.15, PGlobals: 0.1, PSubsetGens: 0.2, PEdit: 0.3, PStale: 0.05,
-		PSumOps: 0.2, PUnhashable: 0.06, PBreak: 0.04, PGenFault: 0.1, PIOFault: 0.12, PKill: 0.08, PMidEdit: 0.1, PConverge: 0.6, PFailAfterEdit: 0.12, PMute: 0.1, PReal: 0.08})
+		PSumOps: 0.2, PUnhashable: 0.06, PBreak: 0.04, PGenFault: 0.1, PIOFault: 0.12, PKill: 0.08, PMidEdit: 0.1, PConverge: 0.6, PFailAfterEdit: 0.12, PMute: 0.1, PReal: 0.08, PUniform: 0.4})
 }
